@@ -263,10 +263,11 @@ func runC09(o *Out, rng *Rng, tier string, replay string) {
 		if c%3 == 2 {
 			s = genProtocol(r, wd, false, "C09", -1)
 		} else {
-			s = genEngine(r, wd, "C09", engCfg{nTrav: r.Range(2, 8), days: r.Range(8, 30), promises: 1 + r.Intn(2), samePrefix: true})
+			s = genEngine(r, wd, "C09", engCfg{nTrav: r.Range(2, 8), days: r.Range(8, 30), promises: 1 + r.Intn(2), samePrefix: true, faults: c%2 == 0})
 		}
 		keepFails(o, s, "C09")
 		o.CountN("engine_proposals", s.stat["proposals"])
+		o.CountN("proposals_with_storage_fault", s.stat["proposals_with_storage_fault"])
 		o.CountN("engine_makes_ok", s.stat["makes_ok"])
 		o.AddCase(List(s.coq), s.stat["makes_ok"] > 1, s.ops)
 		s.close()
@@ -293,8 +294,10 @@ func runC10(o *Out, rng *Rng, tier string, replay string) {
 			s = genC10FullBook(r, wd)
 			o.CountN("full_book_requests_while_oldest_trip_in_progress", s.stat["c10_fullbook_requests"])
 		} else {
+			cfg.faults = c%2 == 0
 			s = genEngine(r, wd, "C10", cfg)
 		}
+		o.CountN("proposals_with_storage_fault", s.stat["proposals_with_storage_fault"])
 		o.CountN("make_ok_after_updates_changed_the_record", s.stat["c10_delayed_make_ok"])
 		keepFails(o, s, "C10")
 		engNote(o, s)
